@@ -34,8 +34,9 @@ def rowsJson : Option (List CountRow) → Json
   | some rows => ofList rowJson rows
 
 def runAndDump (kind : String) (ignore : Bool) (dflt : String) (evs : List ReadEv) : Option (List CountRow) :=
-  if kind == "id" then (countAll idKey ignore dflt evs).map dumpRows
-  else (countAll coordKey ignore dflt evs).map dumpRows
+  if kind == "id" then (countAll idKey keepFirst ignore dflt evs).map dumpRows
+  else if kind == "strand" then (countAll strandKey keepFirst ignore dflt evs).map dumpRows
+  else (countAll coordKey FeatureInfo.merge ignore dflt evs).map dumpRows
 
 def jEvents (j : Json) : Except String (List ReadEv) := do
   let pmaps ← jList (jList jFeatureInfo) (← arg j "pmaps")
@@ -70,6 +71,12 @@ def ops : List (String × Handler) := [
       match effectiveDelta (← jStr (← arg j "strategy")) (← jOpt jInt (← arg j "delta")) with
       | none => pure (jErr "error")
       | some d => pure (ofInt d)),
+  ("merge_info", fun j => do
+      let a ← jFeatureInfo (← arg j "a")
+      let b ← jFeatureInfo (← arg j "b")
+      let m := a.merge b
+      pure (Json.mkObj [("chr", ofStr m.chr), ("start", ofInt m.start), ("end", ofInt m.stop), ("strand", ofStr m.strand),
+                        ("type", ofStr m.ftype), ("genes", ofList ofStr m.genes), ("str", ofStr m.toStr)])),
   ("count_dump", fun j => do
       let evs ← jEvents j
       let r := runAndDump (← jStr (← arg j "key")) (← jBool (← arg j "ignore_groups")) (← jStr (← arg j "default_group")) evs
